@@ -19,6 +19,10 @@ CHECKS = {
    technique="bounded-exhaustive enumeration of documents x ordered format pairs, metamorphic two-hop oracle on the real library (idempotence and round trip), both supply modes at each hop",
    text="For every enumerated document (C01 corpus, boundary-sized collections, buffer-straddling strings, extensions) and every ordered pair (A,B): whenever xt(A->B)(x) succeeds, xt(B->B) reproduces it byte for byte from slice and reader, and for common-model documents xt(B->A) of it equals xt(A->A)(x) (TOML: of the reordered value).",
    note="Metamorphic oracle: xt is compared with itself, so a defect that affects both sides identically is invisible here (C01 covers absolute fidelity)."),
+ "C07": dict(cat="exploration", design="4.7",
+   technique="exhaustive enumeration over all Unicode scalar values, all ill-formed unit classes, the encoder's hidden-state product and encoded YAML texts under deviation-bounded read schedules, on the real re-encoder (hook) and the real library",
+   text="Every Unicode scalar value in 8 encodings re-encodes to exactly its UTF-8 for all listed consumer read sizes and source buffer sizes; every four-character length-class sequence under every short consumer read pattern; every ill-formed UTF-16 first unit x continuation class and every UTF-32 value is rejected without fabricating characters; encoding detection matches YAML 1.2 section 5.2 on every BOM/ASCII-led stream; every generated YAML text in 8 encodings translates exactly like its UTF-8 form from slice and reader (cuts inside code units), explicit and detected.",
+   note="Trusted: std's UTF-16/32 decoding as the well-formedness reference; the hook yaml_reencode forwards to Encoder::from_reader. Texts beyond the generators are not covered."),
  "C08": dict(cat="model_checking", design="4.8",
    technique="exhaustive enumeration of call histories (depth 3) on one real Translator(TOML) against a reference model of the one-use state, plus refusals planted at every node of every small tree; validity decided by an independent TOML reader",
    text="Every history of up to 3 calls over the input alphabet (all source formats, slice and reader, accepted / refused / empty / multi-document / malformed inputs) leaves the writer with nothing or exactly one valid TOML document equal to the accepted value, refuses every later document, and writes nothing for a refused one; every small tree with a null, oversized integer, non-string key or binary planted at any node is refused cleanly; every key style and array shape produces valid TOML that reads back as the value.",
